@@ -258,7 +258,11 @@ bytecode_append_int (OrcBytecode *bytecode, int value)
     bytecode_append_byte (bytecode, value & 0xff);
     bytecode_append_byte (bytecode, value >> 8);
   } else {
-    ORC_ASSERT(0);
+    /* escape 255, then the reserved 16-bit value 65535, then 32 bits */
+    bytecode_append_byte (bytecode, 255);
+    bytecode_append_byte (bytecode, 255);
+    bytecode_append_byte (bytecode, 255);
+    bytecode_append_uint32 (bytecode, (orc_uint32) value);
   }
 }
 
@@ -323,6 +327,12 @@ orc_bytecode_parse_get_int (OrcBytecodeParse *parse)
   if (value == 255) {
     value = orc_bytecode_parse_get_byte(parse);
     value |= orc_bytecode_parse_get_byte(parse) << 8;
+    if (value == 65535) {
+      value = orc_bytecode_parse_get_byte(parse);
+      value |= orc_bytecode_parse_get_byte(parse) << 8;
+      value |= orc_bytecode_parse_get_byte(parse) << 16;
+      value |= orc_bytecode_parse_get_byte(parse) << 24;
+    }
   }
 
   return value;
